@@ -45,6 +45,7 @@ structure KInv (E : Env S Unit π) (s : St S Unit π) : Prop where
   prog_init : ∀ nt, nt ∈ s.initS → MN s nt = none
   owned : ∀ nt P prog, MR s nt P = some prog → (MN s nt).isSome = true ∨ nt ∈ s.initS
   prio : ∀ nt P prog, MR s nt P = some prog → (prioSpec E prog nt).isSome = true
+  has_rule : ∀ nt P prog, MR s nt P = some prog → ∃ ra, E.G.rule? nt P = some (ra, ())
 
 theorem KInv.maxOK {E : Env S Unit π} {s : St S Unit π} (h : KInv E s) : MaxOK E s :=
   ⟨h.sync, fun nt rs m hl hm => (h.best nt rs m hl hm).2⟩
@@ -277,7 +278,7 @@ theorem stI_step (E : Env S Unit π) (rank : NT S Unit → Nat) (H : InitHyp E r
         · simp at h
         · rename_i s1 best hml
           have hk0 : KInv E { s with initS := s.initS ++ [nt] } := by
-            refine ⟨hk.sync, hk.best, ?_, ?_, hk.prio⟩
+            refine ⟨hk.sync, hk.best, ?_, ?_, hk.prio, hk.has_rule⟩
             · intro x hx
               rcases List.mem_append.mp hx with hx | hx
               · exact hk.prog_init x hx
@@ -338,7 +339,7 @@ theorem stI_step (E : Env S Unit π) (rank : NT S Unit → Nat) (H : InitHyp E r
               · exact hm
             have hers : s1.initS.erase nt = s.initS := by
               rw [hinit1']; exact erase_append_self _ _ hnin
-            refine ⟨⟨?_, ?_, ?_, ?_, k1.prio⟩, ?_, hers, ?_, ?_⟩
+            refine ⟨⟨?_, ?_, ?_, ?_, k1.prio, k1.has_rule⟩, ?_, hers, ?_, ?_⟩
             · exact k1.ext_sync hxs'
             · intro x rs' m hl hm
               rw [hMNs'] at hm
@@ -446,13 +447,18 @@ theorem tail_facts (E : Env S Unit π) (rank : NT S Unit → Nat) (H : InitHyp E
     · rename_i heq; cases heq; rw [hMRs1] at hm; cases hm
     · exact hm
   have hk2 : KInv E { s1 with cache := c, maxRule := AList.insert (nt, P) (.node P args) s1.maxRule } := by
-    refine ⟨?_, ?_, hk1.prog_init, ?_, ?_⟩
+    refine ⟨?_, ?_, hk1.prog_init, ?_, ?_, ?_⟩
     rotate_left 3
     · intro x Q p hm
       rw [hMR2] at hm
       split at hm
       · rename_i heq; cases heq; cases hm; rw [hv]; rfl
       · exact hk1.prio x Q p hm
+    · intro x Q p hm
+      rw [hMR2] at hm
+      split at hm
+      · rename_i heq; cases heq; exact ⟨ra, hr⟩
+      · exact hk1.has_rule x Q p hm
     · intro x F prog ra' hm hr'
       rw [hMR2] at hm
       split at hm
@@ -594,13 +600,18 @@ theorem stL_tail (E : Env S Unit π) (rank : NT S Unit → Nat) (H : InitHyp E r
     · rename_i heq; cases heq; rw [hMRs1] at hm; cases hm
     · exact hm
   have hk2 : KInv E { s1 with cache := c, maxRule := AList.insert (nt, P) (.node P args) s1.maxRule } := by
-    refine ⟨?_, ?_, hk1.prog_init, ?_, ?_⟩
+    refine ⟨?_, ?_, hk1.prog_init, ?_, ?_, ?_⟩
     rotate_left 3
     · intro x Q p hm
       rw [hMR2] at hm
       split at hm
       · rename_i heq; cases heq; cases hm; rw [hv]; rfl
       · exact hk1.prio x Q p hm
+    · intro x Q p hm
+      rw [hMR2] at hm
+      split at hm
+      · rename_i heq; cases heq; exact ⟨ra, hr⟩
+      · exact hk1.has_rule x Q p hm
     · intro x F prog ra' hm hr'
       rw [hMR2] at hm
       split at hm
